@@ -36,8 +36,20 @@ import _ "unsafe"
 
 func main() { println("warm") }
 J
-( cd "$C13/warmprog" && c13env "$C13/llgo" build -o "$C13/warmprog/out" . ) >"$C13/warm.log" 2>&1 || { echo "llgo cannot build a println program in this environment:" >&2; tail -30 "$C13/warm.log" >&2; return 1; }
+( cd "$C13/warmprog" && c13env "$C13/llgo" build -tags verifbase -abi 2 -o "$C13/warmprog/out" . ) >"$C13/warm.log" 2>&1 || { echo "llgo cannot build a println program in this environment:" >&2; tail -30 "$C13/warm.log" >&2; return 1; }
 [ "$("$C13/warmprog/out" 2>&1)" = "warm" ] || { echo "the println program built by llgo does not run" >&2; return 1; }
+# the other configurations the histories switch to (build tags, ABI modes,
+# LLGO_TRACE: each is part of every package's cache key, the runtime's too):
+# warm them side by side, so that a world's first build under them costs seconds
+c13warm() { ( cd "$C13/warmprog" && c13env env $3 "$C13/llgo" build -tags "$1" -abi "$2" -o "$C13/warmprog/out-$4" . ) >>"$C13/warm.log" 2>&1; }
+c13warm verifbase,alt 2 A=1 1 &
+c13warm verifbase 1 A=1 2 &
+c13warm verifbase 0 A=1 3 &
+c13warm verifbase,alt 1 A=1 4 &
+c13warm verifbase,alt 0 A=1 5 &
+c13warm verifbase 2 LLGO_TRACE=1 6 &
+c13warm verifbase,alt 2 LLGO_TRACE=1 7 &
+wait
 case " ${ARGS[*]} ${VERIF_TIER:-} " in *thorough*)
   export VERIF_C13_EMBED=1
   cat > "$C13/warmprog/main.go" <<'J'
@@ -50,5 +62,5 @@ var s string
 
 func main() { println(len(s) > 0) }
 J
-  ( cd "$C13/warmprog" && c13env "$C13/llgo" build -O0 -o "$C13/warmprog/out2" . ) >>"$C13/warm.log" 2>&1 || { echo "note: embed programs do not build here; embed histories are skipped" >&2; export VERIF_C13_EMBED=0; }
+  ( cd "$C13/warmprog" && c13env "$C13/llgo" build -O0 -tags verifbase -abi 2 -o "$C13/warmprog/out2" . ) >>"$C13/warm.log" 2>&1 || { echo "note: embed programs do not build here; embed histories are skipped" >&2; export VERIF_C13_EMBED=0; }
 ;; esac
